@@ -102,8 +102,9 @@ def decode_obligations(ck, r, tag, n, form, bytevars, failures):
             ck.prove(tag + '.reach', 'accepting path reachable', pre + '\n' + asserts(p['pc']), expect='sat', timeout=30)
 
 
-def run(tier, seed):
-    ck = Check('C03', tier, seed, level='model_checking')
+def run(tier, seed, ck=None):
+    own = ck is None
+    ck = ck or Check('C03', tier, seed, level='model_checking')
     lens0 = [0, 1, 2, 32, 33, 34, 64, 65, 66] if tier == 'quick' else list(range(0, 131))
     lensx = [0, 1, 33, 65, 66] if tier == 'quick' else [0, 1, 2, 32, 33, 34, 64, 65, 66, 97]
     hexl = [0, 1, 2, 66, 67, 130] if tier == 'quick' else [0, 1, 2, 3, 64, 65, 66, 67, 68, 129, 130, 131, 132]
@@ -116,15 +117,15 @@ def run(tier, seed):
     for n in hexl:
         jobs.append({'id': 'hex%d' % n, 'harness': 'vh_el_decodehex', 'args': [n], 'summaries': SUMM})
     runs = ck.absorb(core.symx_parallel(HARNESS, jobs, chunks=10))
-    ck.extra['_runs'] = runs
+    ck.extra.setdefault('_runs', []).extend(runs)
     R_ = {r.id: r for r in runs}
-    ck.trusted = ['go/ssa + symx translation', 'SMT solvers',
+    ck.trusted += ['go/ssa + symx translation', 'SMT solvers',
                   'contracts of field.Element methods (C12): FromBytesWithReduce flag = [OS2IP < p] and value = OS2IP mod p; SqrtRatio(a,1) flag = [a is a square], root r with r^2 = a; Equals/IsZero exact',
                   'the two square roots of a non-zero square have opposite parity and no curve point has y = 0 (odd group order): "root with the prefix parity" is well defined',
                   'encoding/hex contract (see C07)']
-    ck.assumptions = ['receiver is any coordinate triple before the call']
-    ck.bounds = {'Decode input lengths': lens0, 'form-specific decoders / UnmarshalBinary lengths': lensx, 'hex string lengths': hexl, 'contents': 'all byte values'}
-    ck.outside = ['input lengths outside the tables (they take the same default/length-mismatch branch)']
+    ck.assumptions += ['receiver is any coordinate triple before the call']
+    ck.bounds.update({'Decode input lengths': lens0, 'form-specific decoders / UnmarshalBinary lengths': lensx, 'hex string lengths': hexl, 'contents': 'all byte values'})
+    ck.outside += ['input lengths outside the tables (they take the same default/length-mismatch branch)']
     from props import C12
     C12.run(tier, seed, ck)   # contracts of the field.Element methods used as summaries are re-proved on the current tree
     failures = []
@@ -178,7 +179,7 @@ def run(tier, seed):
         decode_obligations(ck, sub, tag, n // 2, 'any', hb, failures)
     if failures and not ck.violations:
         battery(ck, failures)
-    return ck.finish()
+    return ck.finish() if own else None
 
 
 def battery(ck, failures):
